@@ -104,6 +104,7 @@ from isla.z3_helpers import (
     z3_subst,
     get_symbols,
     smt_expr_to_str,
+    smt_escape_non_ascii,
 )
 
 SolutionState = List[Tuple["Constant", "Formula", "DerivationTree"]]
@@ -1420,7 +1421,7 @@ class SMTFormula(Formula):
                 | (substitutions or {}).keys()
             )
             self.formula: z3.BoolRef = z3.parse_smt2_string(
-                f"(assert {formula})",
+                smt_escape_non_ascii(f"(assert {formula})"),
                 decls={var.name: var.to_smt() for var in declared_symbols},
             )[0]
 
@@ -1467,7 +1468,7 @@ class SMTFormula(Formula):
         formula = state["formula"].decode("utf-8")
         formula = formula.replace(r"\"", '""')
         z3_constr = z3.parse_smt2_string(
-            f"(assert {formula})",
+            smt_escape_non_ascii(f"(assert {formula})"),
             decls={
                 var.name: z3.String(var.name)
                 for var in free_variables | instantiated_variables
@@ -3837,7 +3838,7 @@ class ISLaEmitter(IslaLanguageListener.IslaLanguageListener):
 
         try:
             z3_constr = z3.parse_smt2_string(
-                f"(assert {formula_text})",
+                smt_escape_non_ascii(f"(assert {formula_text})"),
                 decls=(
                     {var: z3.String(var) for var in self.known_var_names()}
                     | {
